@@ -147,7 +147,7 @@ func budgetOracle(rep *Report, sc Scenario, obs []StepObs, distinct map[string]b
 
 func init() {
 	checks["C16"] = func(rep *Report, tier string, seed int64) {
-		rep.Rule = "pure grid: chunkSize for every key length 1..250, metaKey/chunkKey for 8 spare-capacity classes x 7+ chunk numbers, chunkSliceIndices on 3000 random triples, real function vs regenerated Lean definition; handler runs: for every key length 1..250 (step 1 quick) sets of value lengths {0,1,p-1,p,p+1,2p,3p+1} through the real chunked handler (L1-only stack), every backend set request checked against the slab budget and compared with the model; distinct = distinct (key length, chunk count, remainder) triples"
+		rep.Rule = "pure grid: chunkSize for every key length 1..250, metaKey/chunkKey for 8 spare-capacity classes x 7+ chunk numbers, chunkSliceIndices on 3000 random triples, real function vs regenerated Lean definition; handler runs: for every key length 1..250 (step 1 quick) sets of value lengths {0,1,p-1,p,p+1,2p,3p+1,4045-k,4046-k,4047-k,4p+1,8p} through the real chunked handler (L1-only stack), every backend set request checked against the slab budget and compared with the model; distinct = distinct (key length, chunk count, remainder) triples"
 		d := StartDriver()
 		defer d.Close()
 		r := rand.New(rand.NewSource(seed))
@@ -157,7 +157,9 @@ func init() {
 		step := 1
 		for kl := 1; kl <= 250; kl += step {
 			p := 1184 - 71 - kl - 16
-			lens := []int{0, 1, p - 1, p, p + 1, 2 * p, 3*p + 1}
+			// (…, and lengths around what is left of the handler's 4 KiB write buffer after a
+			// chunk's header, where a chunk is handed to the writer in more than one piece)
+			lens := []int{0, 1, p - 1, p, p + 1, 2 * p, 3*p + 1, 4046 - kl - 1, 4046 - kl, 4046 - kl + 1, 4*p + 1, 8 * p}
 			if tier == "thorough" {
 				lens = append(lens, 2*p-1, 2*p+1, 5*p, 6*p-1, 40*p)
 				if kl == 250 || kl == 1 || kl == 100 {
